@@ -31,6 +31,7 @@ fn abs(a: &IBig) -> IBig { if *a < IBig::from(0) { IBig::from(0) - a } else { a.
 
 fn main() {
     let mut n = 0u64;
+    let thorough = std::env::args().nth(1).as_deref() == Some("thorough");
     // ---- sample of stored integers per precision ------------------------------------------------------------------------------------
     let mut seed = 0x9e3779b97f4a7c15u64;
     let mut rnd = move || { seed ^= seed << 13; seed ^= seed >> 7; seed ^= seed << 17; seed };
@@ -46,7 +47,7 @@ fn main() {
                 }
             }
         }
-        for _ in 0..60 {
+        for _ in 0..(if thorough { 3000 } else { 60 }) {
             let digits = 1 + (rnd() % 40) as usize;
             let mut s = String::new();
             for i in 0..digits { let c = (rnd() % 10) as u8; s.push((b'0' + if i == 0 && c == 0 { 1 } else { c }) as char); }
@@ -81,7 +82,7 @@ fn main() {
     let p = 34u64; let pm = pow10(34);
     let mut vals: Vec<IBig> = vec![IBig::from(0), IBig::from(1), IBig::from(-1), pm.clone(), IBig::from(0) - &pm, IBig::from(3) * &pm, IBig::from(-3) * &pm,
         &pm / IBig::from(3), IBig::from(0) - &pm / IBig::from(3), IBig::from(5) * pow10(33), IBig::from(-5) * pow10(33), IBig::from(7) * pow10(16), IBig::from(-7) * pow10(16)];
-    while vals.len() < 61 {
+    while vals.len() < (if thorough { 400 } else { 61 }) {
         let digits = 1 + (rnd() % 40) as usize;
         let mut s = String::new();
         for i in 0..digits { let c = (rnd() % 10) as u8; s.push((b'0' + if i == 0 && c == 0 { 1 } else { c }) as char); }
